@@ -58,7 +58,8 @@ PROPS["C20"] = {
 }
 PROPS["C01"] = adm_prop("c01", 1500, 40000, "C01_verdict: for every configuration, request, oracle world and every evaluator that allows at privileged (true of any registry: C03_privileged), a non-exempt pod CREATE or significant UPDATE is allowed iff the evaluator allows the pod at the enforce level:version the labels and defaults resolve to (spec-side resolution); denials are 403 Forbidden naming level:version; the enforce-policy annotation names the level (and below privileged the version). C01_verdict_needs_hyp documents why the evaluator hypothesis is needed (fully-privileged short circuit).")
 PROPS["C06"] = adm_prop("c06", 1500, 40000, "C06_exact: an exemption test is true iff the value is non-empty and Leibniz-equal to a list entry; C06_exemptions (P06): an exempt marking names a matching dimension, is allowed, unevaluated and counted once; whenever the request would have been evaluated without exemptions it is marked; when no dimension matches exactly the response equals the one with all exemption lists emptied; C06_dryrun: dry runs evaluate exactly the non-exempt-runtime-class pods. The implementation is run twice per case (with and without exemptions) on hits and near-misses (prefix, case change, cross-list, empty).")
-PROPS["C07"] = adm_prop("c07", 1500, 40000, "C07_faults (P07) for every oracle answer: pod requests fail closed at every call site (500 on lookup failure, 400 on decode/wrong type/nil for object and old object) and are allowed only if ignored, exempt, fully privileged with valid labels, insignificant, or evaluated and compliant; controller requests fail open with an error annotation and one fatal error metric; namespace decode failures deny, list failure and expiry never block; malformed labels never skip evaluation and are flagged. F4 (nil object panics the controller path) was found by this check and repaired (fix: commit).")
+PROPS["C07"] = adm_prop("c07", 1500, 40000, "C07_faults (P07) for every oracle answer: pod requests fail closed at every call site (500 on lookup failure, 400 on decode/wrong type/nil for object and old object) and are allowed only if ignored, exempt, fully privileged with valid labels, insignificant, or evaluated and compliant; controller requests fail open with an error annotation and one fatal error metric; namespace decode failures deny, list failure and expiry never block; malformed labels never skip evaluation and are flagged. F4 (nil object panics the controller path) was found by this check and repaired (fix: commit). Stream c07src drives the real client- and informer-backed NamespaceGetter/PodLister (admission/namespace.go, admission/pods.go) over a stub API server with failing GET/LIST requests and lists of more than 500 pods; Model/Sources.v computes the oracle answers from the cluster state.",
+    extra_streams=[{"name": "c07src", "n_quick": 400, "n_thorough": 8000}])
 PROPS["C08"] = adm_prop("c08", 1500, 40000, "C08_audit_warn (P08) for an arbitrary evaluator: the allow bit is the enforce verdict alone; an allowed request carries the warn warning iff the object violates warn; audit-violations is present iff it violates audit, allowed or denied; each names its own level:version; cache soundness (every cached lookup equals the evaluator on that key) for all coinciding and partially coinciding triples.")
 PROPS["C09"] = adm_prop("c09", 1200, 30000, "C09_never_denied for all faults; C09_controllers (P09): enforce is never applied (no enforce metric, no enforce-policy annotation), no findings without template or on subresources, and warnings/audit-violations equal those of the bare pod of the same template under the same audit/warn policy. All nine Go types are exercised (CronJob nesting, optional ReplicationController template, Pod under a controller resource).")
 PROPS["C10"] = adm_prop("c10", 1500, 40000, "C10_significance_characterised, C10_insignificant_allowed (allowed, unevaluated, whatever the policy), C10_updates_and_subresources (P10): significant updates answer like the CREATE, any subresource outside the 8 ignored names answers like no subresource; the 8 ignored ones are allowed with an empty trace.")
@@ -82,8 +83,8 @@ PROPS["C14"] = {
 }
 
 PROPS["C15"] = {
-    "streams": [{"name": "c15", "n_quick": 800, "n_thorough": 20000, "race": True}],
-    "level_text": "In the model the admission library is a function of (configuration, request, the oracle answers it reads); the only process-wide state it touches is the five shared response objects and the metric counters. C15_histories: for every history and every initial state each response equals the solo response and the shared store is untouched; C15_shared_constant: every non-fresh response the library hands out is one of the five constants; C15_interleavings: any reordering of a history leaves the same counters. On the implementation: 40-request histories through one long-lived Admission (real PrometheusRecorder) vs freshly constructed ones, sequentially and while 16 goroutines replay the history, under the race detector, with the five shared objects snapshotted after every request.",
+    "streams": [{"name": "c15", "n_quick": 800, "n_thorough": 20000, "race": True}, {"name": "c15src", "n_quick": 400, "n_thorough": 8000}],
+    "level_text": "In the model the admission library is a function of (configuration, request, the oracle answers it reads); the only process-wide state it touches is the five shared response objects and the metric counters. C15_histories: for every history and every initial state each response equals the solo response and the shared store is untouched; C15_shared_constant: every non-fresh response the library hands out is one of the five constants; C15_interleavings: any reordering of a history leaves the same counters. On the implementation: 40-request histories through one long-lived Admission (real PrometheusRecorder) vs freshly constructed ones, sequentially and while 16 goroutines replay the history, under the race detector, with the five shared objects snapshotted after every request; every ListPods context deadline is checked against what the request alone accounts for. Stream c15src: histories through the real NamespaceGetterFromListerAndClient / PodListerFromClient / PodListerFromInformer over a stub API server whose state changes between requests: each answer must equal the one of a rig built from scratch on the present state and the model's answer on world_of(state) (C15_sources_present_state).",
     "level_note": ADM_NOTE + " Finding F1 (webhook wrote into the shared objects) was visible here and is repaired.",
     "partial": "race freedom at the Go memory-model level is observed by the race detector and by deep comparison, not proved; the theorem covers the action-level model in which the library has no hidden state",
     "assumptions": ["the Evaluator handed to Admission is a function of its arguments (C14 for the shipped registry)"],
